@@ -25,7 +25,9 @@ Definition consumes_ref (op : Z) : bool :=
   (op =? 0) || (op =? 2) || (op =? 3) || (op =? 7) || (op =? 8).
 Definition ref_len (c : list (Z * Z)) : Z :=
   fold_right (fun ol acc => if consumes_ref (fst ol) then snd ol + acc else acc) 0 c.
-Definition ref_end (r : read) : Z := r_start r + ref_len (r_cigar r).
+(* htslib bam_endpos: an alignment whose CIGAR consumes no reference base still spans one position *)
+Definition ref_span (c : list (Z * Z)) : Z := if ref_len c =? 0 then 1 else ref_len c.
+Definition ref_end (r : read) : Z := r_start r + ref_span (r_cigar r).
 
 Definition first_op (c : list (Z * Z)) : Z * Z := hd (0, 0) c.
 Definition last_op (c : list (Z * Z)) : Z * Z := last c (0, 0).
@@ -121,10 +123,10 @@ Definition CAT : str := [67; 65; 84].
 
 Definition softclip (k : Z) : list (Z * Z) := if k =? 0 then [] else [(4, k)].
 
-(* [mid]: the aligned part of the CIGAR (any operations but clips; at least one) *)
+(* [mid]: the aligned part of the CIGAR: any operations but clips, covering at least one reference base *)
 Definition is_clip (op : Z) : bool := (op =? 4) || (op =? 5).
 Definition good_mid (mid : list (Z * Z)) : bool :=
-  negb (match mid with [] => true | _ => false end) && forallb (fun ol => negb (is_clip (fst ol))) mid.
+  (0 <? ref_len mid) && forallb (fun ol => negb (is_clip (fst ol))) mid.
 
 (* place_read: a read whose FIRST sequenced cycle pairs with reference position [x]
    (forward strand: the read extends to the right of x; reverse strand: to the left),
@@ -159,6 +161,9 @@ Definition mx_trimmed (mx : option str) : bool :=
 Definition mirror (L : Z) (r : read) : read :=
   mkRead (L - ref_end r) (rev (r_cigar r)) (negb (r_rev r)) (revcomp (r_seq r)) (r_unmapped r) (r_mx r).
 
+Definition mirror_r2 (r2 : option (bool * bool)) : option (bool * bool) :=
+  match r2 with Some (um, rv) => Some (um, negb rv) | None => None end.
+
 (* an interval [s, s+w) mirrors to [L-w-s, L-s) *)
 Definition mirror_obs (L w : Z) (o : obs) : obs :=
   mkObs (option_map (fun s => L - w - s) (o_ds o)) (option_map negb (o_rs o)) (option_map revcomp (o_rz o))
@@ -170,6 +175,25 @@ Definition mirror_result (L w : Z) (x : result) : result :=
   match x with Raise => Raise | Done o => Done (drop_rr (mirror_obs L w o)) end.
 Definition forget_rr (x : result) : result :=
   match x with Raise => Raise | Done o => Done (drop_rr o) end.
+
+(* ------------------------------------------------------------------ specification vocabulary *)
+(* a fragment that was assigned site [p]: DS = p, RS = rs, RZ = rz, no rejection, valid unless it was
+   qcfail on input *)
+Definition site_obs (p : Z) (rs cut : bool) (rz : option str) (pre : bool) : obs :=
+  mkObs (Some p) (Some rs) rz None false (negb pre) (Some p) (Some cut).
+
+(* a rejected fragment: no DS, not valid, reads flagged qcfail, nothing recognised *)
+Definition is_rejected (x : result) : Prop :=
+  exists o, x = Done o /\ o_ds o = None /\ o_valid o = false /\ o_qcfail o = true /\ o_rz o = None
+            /\ o_rr o <> None.
+
+(* the first four sequenced cycles of a stored read *)
+Definition start_motif (r : read) : str :=
+  if r_rev r then revcomp (py_suffix 4 (r_seq r)) else py_prefix 4 (r_seq r).
+
+(* the partner read does not trip the CHIC orientation filter *)
+Definition r2_ok (reverse : bool) (r2 : option (bool * bool)) : bool :=
+  match r2 with Some (false, rev2) => negb (Bool.eqb reverse rev2) | _ => true end.
 
 (* ------------------------------------------------------------------ I/O glue *)
 Definition dec_cigar (v : Val) : list (Z * Z) := map getPair (getL v).
